@@ -4,6 +4,7 @@ from __future__ import annotations
 
 import importlib
 import json
+import os
 import math
 import sys
 import traceback
@@ -303,12 +304,28 @@ def main():
     inp, outp = sys.argv[1], sys.argv[2]
     with open(inp) as f:
         reqs = json.load(f)
+    import signal
+
+    class _Timeout(Exception):
+        pass
+
+    def _alarm(signum, frame):
+        raise _Timeout()
+
+    signal.signal(signal.SIGALRM, _alarm)
+    per_request = int(os.environ.get("VERIF_TORCH_REQUEST_TIMEOUT_S", "240"))
     res = []
     for r in reqs:
         try:
+            signal.alarm(per_request)
             res.append(KINDS[r["kind"]](r))
+        except _Timeout:
+            # e.g. a resampling loop of the real library that never ends on this input: reported as unconfirmed, never as success
+            res.append({"error": f"the real run did not finish within {per_request} s", "timeout": True})
         except Exception as e:  # noqa: BLE001
             res.append({"error": f"{type(e).__name__}: {e}", "trace": traceback.format_exc()[-3000:]})
+        finally:
+            signal.alarm(0)
     with open(outp, "w") as f:
         json.dump(res, f)
 
